@@ -1378,6 +1378,36 @@ func c16GenLarge(r *vRand, i int) *c16Case {
 	return cs
 }
 
+// c16GenDefaultLimit: bodies around the default limit of 20 MiB under a configuration that leaves the
+// limit unset (0) or negative; compressed beforehand by the library and sent by a client that does not
+// compress (i%6 = 0..4: one codec each), or sent as they are (i%6 = 5).
+func c16GenDefaultLimit(r *vRand, i int) *c16Case {
+	const def = 20 * 1024 * 1024
+	cs := &c16Case{large: true, class: "default-limit", algsNil: true, typ: ""}
+	cs.max = []int64{0, -1, 0, -5}[r.Intn(4)]
+	n := def + 1 + r.Intn(3)
+	switch {
+	case i == 6: // exactly at the limit: must be delivered completely
+		n = def
+	case i > 6:
+		n = def - 2 + r.Intn(70000)
+	case r.Pick(60, 40) == 1:
+		n = def + 1 + r.Intn(200000)
+	}
+	payload := c16Bytes(r, n, 1+r.Intn(2))
+	cs.body = payload
+	if k := i % 6; k < c16NCodec {
+		name := c16CodecName[k]
+		if w, ok := c16LibEnc(k, -1, payload); ok {
+			cs.body = w
+			cs.preset = []string{name}
+		}
+	}
+	cs.chunked = r.Bool()
+	cs.method = http.MethodPost
+	return cs
+}
+
 // c16GenLargeOther: large identity bodies, and large bodies compressed beforehand by the library (at
 // any level) and sent by a client that does not compress; half of them without declared length.
 func c16GenLargeOther(r *vRand, i int) *c16Case {
@@ -1448,7 +1478,16 @@ func c16Concurrent(t *testing.T, out *vOut, seed *vRand) {
 					n := []int{0, 1, 100, 4096, 65535, 65536, 65537, 100000}[rg.Intn(8)] + rg.Intn(3)
 					body := c16Bytes(rg, n, rg.Pick(40, 30, 30))
 					req, _ := http.NewRequestWithContext(ctx, http.MethodPost, ts.URL+"/v1/c", bytes.NewReader(body))
-					resp, err := client.Do(req)
+					var resp *http.Response
+					var err error
+					func() {
+						defer func() {
+							if p := recover(); p != nil {
+								err = fmt.Errorf("client.Do panicked: %v", p)
+							}
+						}()
+						resp, err = client.Do(req)
+					}()
 					got := ""
 					if err == nil {
 						b, _ := io.ReadAll(resp.Body)
@@ -1631,6 +1670,41 @@ func TestVerifC16(t *testing.T) {
 			c16Framing(r, cs, 30)
 			emit(cs)
 		}
+	}
+	// exhaustive: names NEAR a name with a decoder (legacy x- aliases, other case, affixes), with a body
+	// that is valid for that decoder, against the default list and against a restricted list: none of
+	// them is enabled, every one must be rejected
+	for bi, base := range c16DefaultAlgs {
+		variants := []string{"x-" + base, "X-" + base, base + "x", "x" + base, base + "-"}
+		if base != "" {
+			variants = append(variants, strings.ToUpper(base), strings.ToUpper(base[:1])+base[1:])
+		} else {
+			variants = []string{"x-", "X-", "-", "identity", "x"}
+		}
+		for vi, v := range variants {
+			for mode := 0; mode < 2; mode++ {
+				cs := &c16Case{class: "namevariant", typ: "", max: int64(30 + r.Intn(40))}
+				if mode == 0 {
+					cs.algsNil = true
+				} else {
+					cs.algs = []string{"", c16DefaultAlgs[1+(bi+vi)%(len(c16DefaultAlgs)-1)]}
+				}
+				payload := c16Bytes(r, 1+r.Intn(int(cs.max)), r.Pick(40, 30, 30))
+				cs.body = payload
+				if k := c16CodecOfName(base); k >= 0 {
+					cs.body, _ = c16LibEnc(k, -1, payload)
+					cs.max += int64(len(cs.body))
+				}
+				cs.preset = []string{v}
+				c16Framing(r, cs, 30)
+				emit(cs)
+			}
+		}
+	}
+	// the DEFAULT limit (max_request_body_size unset, 0 or negative => 20 MiB) at its boundary, for the
+	// raw body and for every decoder: small on the wire, 20 MiB + something when decoded
+	for i := 0; i < vBudget(7, 3); i++ {
+		emit(c16GenDefaultLimit(r, i))
 	}
 	for i := 0; i < nl; i++ {
 		emit(c16GenLarge(r, i))
